@@ -29,6 +29,8 @@ def _jobs(tier, seed):
 
 
 def helper_kind(name):
+    if name.endswith("_g"):
+        return "none"  # greedy wrapper X_1_g: X_1 (single child passed up)
     if name.endswith("_opt"):
         return "optional"
     if re.search(r"_0(_[A-Za-z]+)?$", name):
